@@ -500,7 +500,7 @@ func init() {
 			ctl := sampleCtl(r)
 			rc := &RunConfig{Property: "C18", Profile: "auth-oauth", Seed: seed, Ctl: ctl, MapOrder: r.IntN(2) == 0, Lagfree: r.IntN(3) == 0, MidSched: r.IntN(2) == 0}
 			w := map[string]int{"ing_create": 8, "ing_delete": 6, "ing_update": 14, "ing_ann": 8, "svc_delete": 1, "svc_create": 2, "ep_scale": 4, "renotify": 2, "advance": 4}
-			rc.World, rc.Ops = GenerateRun(seed, GenOptions{Sparse: r.IntN(2) == 0, IngressKeys: []string{"oauth", "balance-algorithm"}, ForceIngressKeys: []string{"oauth"},
+			rc.World, rc.Ops = GenerateRun(seed, GenOptions{Sparse: r.IntN(2) == 0, IngressKeys: []string{"oauth", "balance-algorithm", "oauth-uri-prefix"}, ForceIngressKeys: []string{"oauth"},
 				InitialGlobal: map[string]string{"external-has-lua": "true"}, AnnChance: 2, OwnHostAlways: true,
 				Paths: []string{"/", "/app", "/oauth2", "/oauth2", "/api"}, MinOps: mn, MaxOps: mx, QuiesceEvery: pickInt(r, 2, 4), KeysPerRun: 2, W: w, NoForeignClass: true})
 			return rc
